@@ -24,20 +24,28 @@ func (e ErrClass) String() string { return errNames[e] }
 
 // DecResult is what the reference decoder says about (schema, bytes, prior).
 type DecResult struct {
-	OK               bool
-	N                int      // bytes consumed through the top-level STOP (when OK or only Missing)
-	V                *Val     // destination after decoding (when OK)
-	Err              ErrClass // first structural error met in wire order (EOK if none)
-	ErrOff           int
-	Missing          []string // Go names of required fields lacking in some struct occurrence, in wire order
-	OddBool          bool     // a bool byte outside {0,1} was stored: value comparison is not meaningful
-	DupByValueStruct bool     // a by-value struct field/entry occurred twice: merge-vs-reset not pinned
-	MaxKnownDepth    int      // deepest nesting of schema-parsed values
+	OK      bool
+	N       int      // bytes consumed through the top-level STOP (when OK or only Missing)
+	V       *Val     // destination after decoding (when OK)
+	Err     ErrClass // first structural error met in wire order (EOK if none)
+	ErrOff  int
+	Missing []string // Go names of required fields lacking in some struct occurrence, in wire order
+	OddBool bool     // a bool byte outside {0,1} was stored: value comparison is not meaningful
+	// Unpinned: the input is accepted only thanks to a leniency no property pins
+	// (an EMPTY skipped container carrying an invalid element type code):
+	// rejecting it is not a violation either.
+	Unpinned         bool
+	DupByValueStruct bool // a by-value struct field/entry occurred twice: merge-vs-reset not pinned
+	MaxKnownDepth    int  // deepest nesting of schema-parsed values
 }
 
 type DecOpts struct {
 	SkipDepth int // nesting bound for skipped values (dependency's skipper: 64); 0 = 64
 	MaxDepth  int // bound for schema-parsed nesting; 0 = unbounded
+	// OnPos, when set, is told the offset of every length, count, type code and
+	// field id the schema-driven parse reads (kinds: ftype, fid, strlen, etype,
+	// count, ktype, vtype).
+	OnPos func(kind string, off int)
 }
 
 type decoder struct {
@@ -102,6 +110,10 @@ func (d *decoder) structBody(s *Struct, i int, dst *Val, depth int) (int, *decEr
 			return i, &decErr{ETruncated, i}
 		}
 		id := binary.BigEndian.Uint16(b[i+1:])
+		if d.opts.OnPos != nil {
+			d.opts.OnPos("ftype", i)
+			d.opts.OnPos("fid", i+1)
+		}
 		var f *Field
 		fi := -1
 		for k, x := range s.Fields {
@@ -179,6 +191,9 @@ func (d *decoder) value(t *Type, i int, cur *Val, depth int) (*Val, int, *decErr
 			return nil, i, &decErr{ETruncated, i}
 		}
 		l := int(int32(binary.BigEndian.Uint32(b[i:])))
+		if d.opts.OnPos != nil {
+			d.opts.OnPos("strlen", i)
+		}
 		if l < 0 {
 			return nil, i, &decErr{ENegative, i}
 		}
@@ -192,6 +207,10 @@ func (d *decoder) value(t *Type, i int, cur *Val, depth int) (*Val, int, *decErr
 		}
 		et := b[i]
 		l := int(int32(binary.BigEndian.Uint32(b[i+1:])))
+		if d.opts.OnPos != nil {
+			d.opts.OnPos("etype", i)
+			d.opts.OnPos("count", i+1)
+		}
 		if l < 0 {
 			return nil, i, &decErr{ENegative, i}
 		}
@@ -218,6 +237,11 @@ func (d *decoder) value(t *Type, i int, cur *Val, depth int) (*Val, int, *decErr
 		}
 		kt, vt := b[i], b[i+1]
 		l := int(int32(binary.BigEndian.Uint32(b[i+2:])))
+		if d.opts.OnPos != nil {
+			d.opts.OnPos("ktype", i)
+			d.opts.OnPos("vtype", i+1)
+			d.opts.OnPos("count", i+2)
+		}
 		if l < 0 {
 			return nil, i, &decErr{ENegative, i}
 		}
@@ -317,6 +341,9 @@ func (d *decoder) skip(i int, tp byte, maxdepth int) (int, *decErr) {
 			return 0, &decErr{ENegative, i}
 		}
 		j := i + 5
+		if l == 0 && !validWire(et) {
+			d.res.Unpinned = true
+		}
 		if w := wireWidth(et); w > 0 {
 			if l*w > len(b)-j {
 				return 0, &decErr{ETruncated, i}
@@ -344,6 +371,9 @@ func (d *decoder) skip(i int, tp byte, maxdepth int) (int, *decErr) {
 			return 0, &decErr{ENegative, i}
 		}
 		j := i + 6
+		if l == 0 && (!validWire(kt) || !validWire(vt)) {
+			d.res.Unpinned = true
+		}
 		kw, vw := wireWidth(kt), wireWidth(vt)
 		if kw > 0 && vw > 0 {
 			if l*(kw+vw) > len(b)-j {
